@@ -475,7 +475,15 @@ func (w *worker) process(jb *job) (replayed, skipped, changing int64, ok bool) {
 	for _, c := range jb.chains {
 		in, err := w.build(jb, c)
 		if err != nil {
-			panic(err)
+			// the real code refuses to construct the model's initial state (e.g. AddMount of a valid mount point fails):
+			// a disagreement of its own, reported once per state so that nothing passes for lack of a fixture
+			initRaw := ""
+			if jb.init != nil {
+				initRaw = jb.init.Raw
+			}
+			w.col.add(Div{Prop: "FIXTURE", Sig: w.ad.Name() + " fixture-construction-failed", Detail: err.Error()},
+				Example{Init: initRaw, State: jb.state.Raw, History: []string{}, Call: "(initial state)", Expected: jb.state.Raw, Detail: err.Error()})
+			return 0, int64(len(jb.trs)), 0, false
 		}
 		d := in.CheckState(&jb.state, nil, nil)
 		if len(d) == 0 {
@@ -496,6 +504,23 @@ func (w *worker) process(jb *job) (replayed, skipped, changing int64, ok bool) {
 		in.Close()
 	}
 	if inst == nil {
+		// no history the model knows leads the real code into this state: the real code disagrees with the model at the
+		// end of that history, and none of this state's transitions can be checked. Reported as a divergence of its
+		// own (the driver attributes it to the property being checked; aspect and property of the first mismatch are
+		// kept in Prop / Sig) so that lost coverage is never silent.
+		if len(jb.chains) > 0 && len(jb.chains[0]) > 0 {
+			if in, err := w.build(jb, jb.chains[0]); err == nil {
+				if d := in.CheckState(&jb.state, nil, nil); len(d) > 0 {
+					initRaw := ""
+					if jb.init != nil {
+						initRaw = jb.init.Raw
+					}
+					w.col.add(Div{Prop: "UNBUILT:" + d[0].Prop, Sig: d[0].Sig + " (unbuilt-state)", Detail: d[0].Detail},
+						Example{Init: initRaw, State: jb.state.Raw, History: w.hist(jb.chains[0]), Call: "(rebuild)", Expected: jb.state.Raw, Detail: d[0].Detail})
+				}
+				in.Close()
+			}
+		}
 		return 0, int64(len(jb.trs)), 0, false
 	}
 	base := w.hist(chain)
@@ -508,11 +533,12 @@ func (w *worker) process(jb *job) (replayed, skipped, changing int64, ok bool) {
 		// real code) must not be blamed on the next transition
 		for try := 0; try < 3; try++ {
 			inst.Close()
-			var err error
-			inst, err = w.build(jb, chain)
+			nin, err := w.build(jb, chain)
 			if err != nil {
-				panic(err)
+				alive = false // (inst stays the closed instance: Close is idempotent for every adapter)
+				return
 			}
+			inst = nin
 			if d := inst.CheckState(&jb.state, nil, nil); len(d) == 0 {
 				since = nil
 				hist = base
@@ -645,6 +671,14 @@ func ReplayOne(ad Adapter, initRaw, stateRaw string, history []string, callRaw, 
 			return nil, nil, e
 		}
 		inst.Apply(&c)
+	}
+	if strings.HasPrefix(callRaw, "(") {
+		// "(initial state)" / "(rebuild)": the history alone must lead to the model state
+		st, e := tla.Parse(stateRaw)
+		if e != nil {
+			return nil, nil, e
+		}
+		return "(state after the history)", inst.CheckState(&st, nil, nil), nil
 	}
 	call, e := tla.Parse(callRaw)
 	if e != nil {
